@@ -1,0 +1,6 @@
+//go:build verif
+
+package engine
+
+// VerifParseSQL exposes parseSQL (scanner + parser exactly as ExecQuery drives them).
+func VerifParseSQL(q string) (interface{}, error) { return parseSQL(q) }
